@@ -939,7 +939,23 @@ def r7(db, rep):
                                         null_known = True
                             if op == "false" and facts.strip_all(l).get("var") == d["var"]:
                                 null_known = True
-                        freed = bool(dpos) and g.reached_from_entry_avoiding(g.pos(x), dpos) is None
+                        # paths that come through a branch on which the slot is known to be null need no delete: those edges
+                        # are taken out before asking whether the store can be reached without passing a delete
+                        null_edges = set()
+                        for b_ in g.blocks.values():
+                            cn_ = g.idx.get(b_.get("cond")) if b_.get("cond") is not None else None
+                            if cn_ is None or len(b_["s"]) != 2:
+                                continue
+                            for pol_, k_ in ((True, 0), (False, 1)):
+                                for op, l, r_ in _cond.facts_of(f, cn_, pol_):
+                                    if op == "false" and facts.strip_all(l).get("var") == d["var"]:
+                                        null_edges.add((b_["id"], k_))
+                                    if op == "==" and r_ is not None:
+                                        for a, b in ((l, r_), (r_, l)):
+                                            if facts.strip_all(a).get("var") == d["var"] and (facts.cval(b) == 0 or is_null(b)):
+                                                null_edges.add((b_["id"], k_))
+                        freed = (bool(dpos) or bool(null_edges)) and \
+                            g.reached_from_entry_avoiding(g.pos(x), dpos, skip_edges=null_edges) is None
                         if null_known or freed:
                             rep.ok("R7-owning-container", key, facts.loc(f, x), "slot is %s before it is overwritten" % ("null" if null_known else "deleted"))
                         else:
